@@ -625,12 +625,12 @@ def _tree_shards(tier):
 
 
 HARNESSES = [
-    H(content, shards=_leaf_shards(True), timeout={"quick": 80, "thorough": 1500}),
-    H(attribute, shards=_leaf_shards(True), timeout={"quick": 80, "thorough": 1500}),
-    H(comment, shards=_leaf_shards(True), timeout={"quick": 80, "thorough": 1500}),
-    H(cdata, shards=_leaf_shards(False, "nc"), timeout={"quick": 80, "thorough": 1500}),
-    H(tree_p, shards=_tree_shards, timeout={"quick": 80, "thorough": 1500}),
-    H(tree_div, shards=_tree_shards, timeout={"quick": 80, "thorough": 1500}),
+    H(content, shards=_leaf_shards(True), timeout={"quick": 120, "thorough": 1500}),
+    H(attribute, shards=_leaf_shards(True), timeout={"quick": 120, "thorough": 1500}),
+    H(comment, shards=_leaf_shards(True), timeout={"quick": 120, "thorough": 1500}),
+    H(cdata, shards=_leaf_shards(False, "nc"), timeout={"quick": 120, "thorough": 1500}),
+    H(tree_p, shards=_tree_shards, timeout={"quick": 120, "thorough": 1500}),
+    H(tree_div, shards=_tree_shards, timeout={"quick": 120, "thorough": 1500}),
 ]
 
 _HOSTILE = ["", "a", "&", "<", ">", '"', "'", "&amp;", "&lt;b", "</p>", "<!--", "-->", "--!>", ">", "->", "-", "--",
